@@ -27,7 +27,10 @@ import (
 
 	"github.com/dlclark/regexp2"
 	"github.com/lestrrat-go/jwx/v2/jws"
+	ssi "github.com/nuts-foundation/go-did"
+	"github.com/nuts-foundation/go-did/did"
 	"github.com/nuts-foundation/go-did/vc"
+	"github.com/nuts-foundation/nuts-node/vcr/credential"
 )
 
 // ---------- ops
@@ -57,13 +60,20 @@ type zMapping struct {
 	Nested *zMapping `json:"nested,omitempty"`
 }
 
-type zDecode struct { // go-did contract: value found in the envelope, decoded with a format
-	Val  interface{} `json:"val"`
-	Fmt  string      `json:"fmt"`
-	Kind string      `json:"kind"`           // "vc" | "vp" | "err"
-	Cred string      `json:"cred,omitempty"` // name in the case's universe (kind vc)
-	Raw  string      `json:"raw,omitempty"`  // Raw() digest of the decoded credential (kind vc)
-	Map  interface{} `json:"map,omitempty"`  // marshal->map view used for path_nested (nil when it is not an object)
+type zDecode struct { // go-did contract: a value found in the envelope (or in a decoded presentation), decoded with a format
+	Root int           `json:"root"`           // 0 = Envelope.asInterface, k>0 = the map view of the k-th decoded value that has one
+	At   []interface{} `json:"at"`             // object keys / array indexes from the root to the value
+	Fmt  string        `json:"fmt"`
+	Kind string        `json:"kind"`           // "vc" | "vp"   (values that do not decode are not listed)
+	Cred string        `json:"cred,omitempty"` // kind vc: name of the decoded credential
+	Raw  string        `json:"raw,omitempty"`  // kind vc: digest of Raw()
+	Map  int           `json:"map,omitempty"`  // index (>0) into Maps of the json.Marshal->map view, 0 = none (marshals to a string)
+}
+
+type zPresCred struct {
+	Ref  string `json:"ref,omitempty"`  // same view as this credential of the case, except Raw
+	Raw  string `json:"raw,omitempty"`
+	Full *zCred `json:"full,omitempty"` // a view that differs from the case's credentials
 }
 
 type zOp struct {
@@ -80,13 +90,15 @@ type zOp struct {
 	Wallets [][]int    `json:"wallets,omitempty"`
 	EnvRaw  string     `json:"envRaw,omitempty"` // validate: envelope text (replay)
 	Env     interface{} `json:"env,omitempty"`   // Envelope.asInterface
-	Pres    [][]string `json:"pres,omitempty"`   // per presentation: names of its credentials
+	Pres    [][]zPresCred `json:"pres,omitempty"` // per presentation: its credentials as parsed from the envelope
+	Maps    []interface{} `json:"maps,omitempty"` // map views of decoded values (index 0 unused)
+	EnvErr  bool       `json:"envErr,omitempty"` // ParseEnvelope failed
 	Signer  []bool     `json:"signer,omitempty"` // per presentation: PresentationSigner succeeded
 	Sub     []zMapping `json:"sub,omitempty"`    // descriptor_map of the submission under test
 	Decode  []zDecode  `json:"decode,omitempty"`
 	Mut     string     `json:"mut,omitempty"`    // which mutation produced the submission (statistics only)
 	// fields
-	CredMap map[string]int `json:"credMap,omitempty"`
+	CredMap [][]interface{} `json:"credMap,omitempty"` // [descriptor id, credential index] in the order given to the model
 }
 
 // ---------- canonicalisation helpers
@@ -468,6 +480,423 @@ func (r *zRun) opMatch(wallet []int) {
 	r.emit(zOp{Op: "match", Wallet: append([]int{}, wallet...)}, line)
 }
 
+// ---------- build / validate / fields on the real code
+
+func zToIDMO(m zMapping) InputDescriptorMappingObject {
+	o := InputDescriptorMappingObject{Id: m.Id, Format: m.Fmt, Path: m.Path}
+	if m.Nested != nil {
+		n := zToIDMO(*m.Nested)
+		o.PathNested = &n
+	}
+	return o
+}
+
+func zFromIDMO(o InputDescriptorMappingObject) zMapping {
+	m := zMapping{Id: o.Id, Fmt: o.Format, Path: o.Path}
+	if o.PathNested != nil {
+		n := zFromIDMO(*o.PathNested)
+		m.Nested = &n
+	}
+	return m
+}
+
+var zHolder = did.MustParseDID("did:example:holder0")
+
+// opBuild runs PresentationSubmissionBuilder.Build over the given wallets; returns the sign instruction when it succeeded
+func (r *zRun) opBuild(wallets [][]int) (*SignInstruction, *PresentationSubmission) {
+	var sign *SignInstruction
+	var sub *PresentationSubmission
+	line := func() (line string) {
+		defer func() {
+			if p := recover(); p != nil {
+				line = "build panic:" + zPanicSite(p)
+			}
+		}()
+		b := r.pd.PresentationSubmissionBuilder()
+		for _, w := range wallets {
+			vcs := []vc.VerifiableCredential{}
+			for _, i := range w {
+				vcs = append(vcs, r.creds[i])
+			}
+			b.AddWallet(zHolder, vcs)
+		}
+		ps, si, err := b.Build("ldp_vp")
+		if err != nil {
+			if strings.Contains(err.Error(), "failed to match presentation definition") || err.Error() == "" {
+				return "build err:nomatch"
+			}
+			return "build err:" + zErrClass(err)
+		}
+		sign, sub = &si, &ps
+		names := []string{}
+		for _, c := range si.VerifiableCredentials {
+			names = append(names, r.credName(c))
+		}
+		if zShowMappings(si.Mappings) != zShowMappings(ps.DescriptorMap) {
+			return "build ok BUT sign instruction mappings differ from the submission's descriptor map"
+		}
+		return "build ok vcs=[" + strings.Join(names, ",") + "] map=" + zShowMappings(ps.DescriptorMap)
+	}()
+	r.stats["build:"+strings.SplitN(line, " ", 3)[1]]++
+	ws := [][]int{}
+	for _, w := range wallets {
+		ws = append(ws, append([]int{}, w...))
+	}
+	r.emit(zOp{Op: "build", Wallets: ws}, line)
+	return sign, sub
+}
+
+// zMakeVP renders a presentation holding the credentials: JSON-LD object text or compact JWT
+func zMakeVP(jwtVP bool, creds []vc.VerifiableCredential, signerOK bool, salt int) string {
+	vp := vc.VerifiablePresentation{
+		Context:              []ssi.URI{ssi.MustParseURI("https://www.w3.org/2018/credentials/v1")},
+		Type:                 []ssi.URI{ssi.MustParseURI("VerifiablePresentation")},
+		VerifiableCredential: creds,
+	}
+	if jwtVP {
+		inner, _ := vp.MarshalJSON()
+		hdr := map[string]interface{}{"alg": "ES256", "typ": "JWT"}
+		if signerOK {
+			hdr["kid"] = "did:example:holder0#k"
+		}
+		claims := map[string]interface{}{"iss": "did:example:holder0", "sub": "did:example:holder0", "jti": "did:example:holder0#vp" + strconv.Itoa(salt),
+			"vp": json.RawMessage(inner)}
+		return zB64(hdr) + "." + zB64(claims) + "." + base64.RawURLEncoding.EncodeToString([]byte("sig"))
+	}
+	id := ssi.MustParseURI("did:example:holder0#vp" + strconv.Itoa(salt))
+	vp.ID = &id
+	if signerOK {
+		vp.Proof = []interface{}{map[string]interface{}{"type": "JsonWebSignature2020", "verificationMethod": "did:example:holder0#k", "proofPurpose": "authentication", "jws": "x"}}
+	}
+	b, _ := vp.MarshalJSON()
+	return string(b)
+}
+
+// zEnvelopeText: one presentation -> its text; several (or forceArray) -> JSON array of objects / JWT strings
+func zEnvelopeText(vps []string, forceArray bool) string {
+	if len(vps) == 1 && !forceArray {
+		return vps[0]
+	}
+	parts := []string{}
+	for _, v := range vps {
+		if strings.HasPrefix(v, "{") {
+			parts = append(parts, v)
+		} else {
+			q, _ := json.Marshal(v)
+			parts = append(parts, string(q))
+		}
+	}
+	return "[" + strings.Join(parts, ",") + "]"
+}
+
+type zDecoder struct {
+	r        *zRun
+	entries  []zDecode
+	maps     []interface{}
+	presName map[string]string // Raw() -> name of a presentation credential
+	nextX    int
+	// map views are only needed below a level that has a path_nested
+	needVCMap, needVPMap bool
+}
+
+func (d *zDecoder) toMap(v interface{}) int {
+	b, err := json.Marshal(v)
+	if err != nil {
+		return 0
+	}
+	var m map[string]interface{}
+	if json.Unmarshal(b, &m) != nil || m == nil {
+		return 0
+	}
+	d.maps = append(d.maps, m)
+	return len(d.maps) - 1
+}
+
+// walk enumerates the string/object values below a root (to a small depth) and decodes each the way resolveCredential does
+func (d *zDecoder) walk(root int, at []interface{}, v interface{}, depth int) {
+	try := func(text string, fmts ...string) {
+		for _, f := range fmts {
+			e := zDecode{Root: root, At: append([]interface{}{}, at...), Fmt: f}
+			if strings.HasSuffix(f, "_vc") {
+				c, err := vc.ParseVerifiableCredential(text)
+				if err != nil {
+					continue
+				}
+				e.Kind = "vc"
+				e.Raw = zDigest(c.Raw())
+				if n, ok := d.presName[c.Raw()]; ok {
+					e.Cred = n
+				} else if n, ok := d.r.names[zKey(*c)]; ok {
+					e.Cred = n + "'"
+				} else {
+					e.Cred = "x" + strconv.Itoa(d.nextX)
+					d.nextX++
+				}
+				if d.needVCMap {
+					e.Map = d.toMap(c)
+				}
+			} else {
+				p, err := vc.ParseVerifiablePresentation(text)
+				if err != nil {
+					continue
+				}
+				e.Kind = "vp"
+				if d.needVPMap {
+					e.Map = d.toMap(p)
+				}
+			}
+			d.entries = append(d.entries, e)
+			if e.Map > 0 && root == 0 && depth <= 1 {
+				d.walk(e.Map, nil, d.maps[e.Map], 1)
+			}
+		}
+	}
+	switch x := v.(type) {
+	case string:
+		if strings.Count(x, ".") == 2 && len(x) > 20 { // only compact JWS look-alikes are worth decoding
+			try(x, "jwt_vc", "jwt_vp")
+		}
+	case map[string]interface{}:
+		b, _ := json.Marshal(x)
+		try(string(b), "ldp_vc", "ldp_vp")
+		if depth < 4 {
+			keys := []string{}
+			for k := range x {
+				keys = append(keys, k)
+			}
+			sort.Strings(keys)
+			for _, k := range keys {
+				d.walk(root, append(at, k), x[k], depth+1)
+			}
+		}
+	case []interface{}:
+		if depth < 4 {
+			for i, e := range x {
+				d.walk(root, append(at, i), e, depth+1)
+			}
+		}
+	}
+}
+
+func zValidateErrClass(err error) string {
+	m := err.Error()
+	switch {
+	case strings.HasPrefix(m, "resolve credentials from presentation submission"):
+		return "resolve"
+	case strings.Contains(m, "presentation submission doesn't match presentation definition"):
+		return "empty-required"
+	case strings.Contains(m, "unable to derive presentation signer"):
+		return "signer"
+	case strings.HasPrefix(m, "expected ") && strings.Contains(m, " credentials, got "):
+		return "count"
+	case strings.HasPrefix(m, "incorrect mapping for input descriptor"):
+		return "mapping"
+	}
+	return "build"
+}
+
+func (r *zRun) opValidate(envRaw string, sub []zMapping, mut string) {
+	op := zOp{Op: "validate", EnvRaw: envRaw, Sub: sub, Mut: mut}
+	env, err := ParseEnvelope([]byte(envRaw))
+	if err != nil {
+		op.EnvErr = true
+		r.stats["validate:envelope-err"]++
+		r.emit(op, "validate envelope-err")
+		return
+	}
+	op.Env = env.asInterface
+	dec := &zDecoder{r: r, maps: []interface{}{nil}, presName: map[string]string{}}
+	presNames := map[string]string{} // Raw -> name (for the result line)
+	universe := map[string]zCred{}
+	for i, c := range r.creds {
+		universe[zKey(c)] = zCredView("c"+strconv.Itoa(i), c)
+	}
+	for pi, p := range env.Presentations {
+		row := []zPresCred{}
+		for ci, c := range p.VerifiableCredential {
+			view := zCredView("", c)
+			name := ""
+			if u, ok := universe[view.Key]; ok {
+				cmp := u
+				cmp.Name, cmp.Raw = "", view.Raw
+				a, _ := json.Marshal(cmp)
+				b, _ := json.Marshal(view)
+				if string(a) == string(b) {
+					name = u.Name
+					row = append(row, zPresCred{Ref: u.Name, Raw: view.Raw})
+				}
+			}
+			if name == "" {
+				name = "p" + strconv.Itoa(pi) + "_" + strconv.Itoa(ci)
+				if u, ok := universe[view.Key]; ok {
+					name = u.Name + "~"
+				}
+				view.Name = name
+				row = append(row, zPresCred{Full: &view})
+			}
+			if _, dup := presNames[c.Raw()]; !dup {
+				presNames[c.Raw()] = name
+			}
+		}
+		op.Pres = append(op.Pres, row)
+		_, serr := credential.PresentationSigner(p)
+		op.Signer = append(op.Signer, serr == nil)
+	}
+	dec.presName = presNames
+	for _, m := range sub {
+		for l := &m; l != nil && l.Nested != nil; l = l.Nested {
+			if strings.HasSuffix(l.Fmt, "_vc") {
+				dec.needVCMap = true
+			} else {
+				dec.needVPMap = true
+			}
+		}
+	}
+	dec.walk(0, nil, env.asInterface, 0)
+	op.Decode, op.Maps = dec.entries, dec.maps
+	line := func() (line string) {
+		defer func() {
+			if p := recover(); p != nil {
+				line = "validate panic:" + zPanicSite(p)
+			}
+		}()
+		ps := PresentationSubmission{Id: "s", DefinitionId: r.pd.Id}
+		for _, m := range sub {
+			ps.DescriptorMap = append(ps.DescriptorMap, zToIDMO(m))
+		}
+		res, err := ps.Validate(*env, *r.pd)
+		if err != nil {
+			return "validate err:" + zValidateErrClass(err)
+		}
+		ids := []string{}
+		for id := range res {
+			ids = append(ids, id)
+		}
+		sort.Strings(ids)
+		parts := []string{}
+		for _, id := range ids {
+			n, ok := presNames[res[id].Raw()]
+			if !ok {
+				n = "?" + zDigest(res[id].Raw())
+			}
+			parts = append(parts, id+"="+n)
+		}
+		return "validate ok {" + strings.Join(parts, ",") + "}"
+	}()
+	r.stats["validate:"+strings.SplitN(line, " ", 3)[1]]++
+	r.stats["mut:"+mut+":"+strings.SplitN(strings.SplitN(line, " ", 3)[1], ":", 2)[0]]++
+	r.emit(op, line)
+}
+
+func zShowValue(v interface{}) string {
+	b, _ := json.Marshal(v)
+	return string(b)
+}
+
+func (r *zRun) opFields(credMap [][]interface{}) {
+	m := map[string]vc.VerifiableCredential{}
+	clean := [][]interface{}{}
+	for _, e := range credMap {
+		id, _ := e[0].(string)
+		var idx int
+		switch x := e[1].(type) {
+		case int:
+			idx = x
+		case float64:
+			idx = int(x)
+		}
+		if _, dup := m[id]; dup { // a Go map holds one credential per id: the later one
+			for k := range clean {
+				if clean[k][0] == id {
+					clean[k][1] = idx
+				}
+			}
+		} else {
+			clean = append(clean, []interface{}{id, idx})
+		}
+		m[id] = r.creds[idx]
+	}
+	line := func() (line string) {
+		defer func() {
+			if p := recover(); p != nil {
+				line = "fields panic:" + zPanicSite(p)
+			}
+		}()
+		res, err := r.pd.ResolveConstraintsFields(m)
+		if err != nil {
+			return "fields err:" + zErrClass(err)
+		}
+		keys := []string{}
+		for k := range res {
+			keys = append(keys, k)
+		}
+		sort.Strings(keys)
+		parts := []string{}
+		for _, k := range keys {
+			parts = append(parts, k+"="+zShowValue(res[k]))
+		}
+		return "fields ok {" + strings.Join(parts, ",") + "}"
+	}()
+	r.stats["fields:"+strings.SplitN(line, " ", 3)[1]]++
+	r.emit(zOp{Op: "fields", CredMap: clean}, line)
+}
+
+// zMutations derives forged / damaged descriptor maps from a correct one
+func zMutations(rng *rand.Rand, sub []zMapping, nCreds int) map[string][]zMapping {
+	cp := func() []zMapping { return append([]zMapping{}, sub...) }
+	out := map[string][]zMapping{}
+	foreign := []string{"$", "$.verifiableCredential", "$.verifiableCredential[0].credentialSubject", "$.holder", "$.proof", "$.type",
+		"$.verifiableCredential[*]", "$.a.", "$.verifiableCredential[0].proof", "$.verifiableCredential.credentialSubject", "$.id", "$[0]"}
+	if len(sub) >= 2 {
+		i := rng.Intn(len(sub))
+		j := (i + 1 + rng.Intn(len(sub)-1)) % len(sub)
+		m := cp()
+		m[i].Path, m[j].Path = m[j].Path, m[i].Path
+		m[i].Fmt, m[j].Fmt = m[j].Fmt, m[i].Fmt
+		out["swap-paths"] = m
+		m = cp()
+		m[i], m[j] = m[j], m[i]
+		out["reorder"] = m
+	}
+	if len(sub) >= 1 {
+		i := rng.Intn(len(sub))
+		m := cp()
+		out["drop"] = append(m[:i], m[i+1:]...)
+		m = cp()
+		out["duplicate-entry"] = append(m, m[i])
+		m = cp()
+		x := m[i]
+		x.Id = "dX"
+		out["surplus-unknown-id"] = append(m, x)
+		m = cp()
+		m[i].Path = "$.verifiableCredential[" + strconv.Itoa(rng.Intn(nCreds+2)) + "]"
+		out["repoint"] = m
+		m = cp()
+		if m[i].Fmt == "ldp_vc" {
+			m[i].Fmt = "jwt_vc"
+		} else {
+			m[i].Fmt = "ldp_vc"
+		}
+		out["format"] = m
+		m = cp()
+		m[i].Path = zPick(rng, foreign)
+		out["foreign-path"] = m
+		m = cp()
+		inner := m[i]
+		m[i] = zMapping{Id: inner.Id, Fmt: []string{"ldp_vp", "jwt_vp", "ldp_vc"}[rng.Intn(3)], Path: "$", Nested: &inner}
+		out["nested-root"] = m
+		m = cp()
+		w := m[i]
+		w.Path = "$.verifiableCredential[" + strconv.Itoa(rng.Intn(nCreds+1)) + "]"
+		out["shadowed-first-entry"] = append([]zMapping{w}, m...)
+		m = cp()
+		m[i].Id = "d" + strconv.Itoa(1+rng.Intn(4))
+		out["rename-id"] = m
+	}
+	out["empty"] = []zMapping{}
+	return out
+}
+
 // ---------- generators
 
 var zTypes = []string{"AlphaCredential", "BetaCredential", "GammaCredential"}
@@ -750,6 +1179,7 @@ func zGenDef(rng *rand.Rand, creds []vc.VerifiableCredential, feat map[string]in
 	fid := 0
 	for i := 0; i < nd; i++ {
 		d := map[string]interface{}{"id": "d" + strconv.Itoa(i+1)}
+		fidStart := fid
 		if rng.Intn(25) == 0 && i > 0 {
 			d["id"] = "d1"
 			feat["dup-descriptor-id"]++
@@ -817,7 +1247,9 @@ func zGenDef(rng *rand.Rand, creds []vc.VerifiableCredential, feat map[string]in
 				if rng.Intn(3) == 0 {
 					fid++
 					f["id"] = "f" + strconv.Itoa(fid)
-					if rng.Intn(10) == 0 && fid > 1 {
+					// the same id twice only inside one descriptor: across descriptors the result of
+					// ResolveConstraintsFields depends on Go map iteration order
+					if rng.Intn(10) == 0 && fid-1 > fidStart {
 						f["id"] = "f" + strconv.Itoa(fid-1)
 					}
 				}
@@ -888,6 +1320,18 @@ func (r *zRun) replayFile(path string) {
 			if live {
 				r.opMatch(op.Wallet)
 			}
+		case "build":
+			if live {
+				r.opBuild(op.Wallets)
+			}
+		case "validate":
+			if live {
+				r.opValidate(op.EnvRaw, op.Sub, op.Mut)
+			}
+		case "fields":
+			if live {
+				r.opFields(op.CredMap)
+			}
 		}
 	}
 }
@@ -952,8 +1396,133 @@ func TestVerifC12(t *testing.T) {
 		if !r.opCase(defRaw, srcs) {
 			continue
 		}
-		for k := 1 + rng.Intn(3); k > 0; k-- {
-			r.opMatch(zGenWallet(rng, n))
+		for k := 1 + rng.Intn(2); k > 0; k-- {
+			w := zGenWallet(rng, n)
+			r.opMatch(w)
+			r.walletFlow(rng, w, n)
+		}
+		if rng.Intn(4) == 0 {
+			r.arbitraryEnvelope(rng, n)
 		}
 	}
+}
+
+// walletFlow: what the wallet does (Build, present) and what the verifier does with it (Validate, ResolveConstraintsFields),
+// then the same envelope with damaged / forged descriptor maps
+func (r *zRun) walletFlow(rng *rand.Rand, w []int, n int) {
+	wallets := [][]int{w}
+	if rng.Intn(6) == 0 {
+		wallets = append([][]int{zGenWallet(rng, n)}, w)
+	}
+	sign, ps := r.opBuild(wallets)
+	if sign == nil {
+		return
+	}
+	sub := []zMapping{}
+	for _, m := range ps.DescriptorMap {
+		sub = append(sub, zFromIDMO(m))
+	}
+	jwtVP := rng.Intn(2) == 0
+	signerOK := rng.Intn(12) > 0
+	vpText := zMakeVP(jwtVP, sign.VerifiableCredentials, signerOK, rng.Intn(1000))
+	envRaw := zEnvelopeText([]string{vpText}, false)
+	r.opValidate(envRaw, sub, "orig")
+	// the credentials the verifier derived feed ResolveConstraintsFields
+	if len(sub) > 0 {
+		cm := [][]interface{}{}
+		for i, m := range sign.Mappings {
+			for ci := range r.creds {
+				if zKey(r.creds[ci]) == zKey(sign.VerifiableCredentials[i]) {
+					cm = append(cm, []interface{}{m.Id, ci})
+					break
+				}
+			}
+		}
+		r.opFields(cm)
+		if rng.Intn(3) == 0 { // arbitrary assignment
+			cm2 := [][]interface{}{}
+			for _, d := range r.pd.InputDescriptors {
+				if rng.Intn(4) > 0 {
+					cm2 = append(cm2, []interface{}{d.Id, rng.Intn(n)})
+				}
+			}
+			cm2 = append(cm2, []interface{}{"dX", rng.Intn(n)})
+			r.opFields(cm2)
+		}
+	}
+	muts := zMutations(rng, sub, len(sign.VerifiableCredentials))
+	names := []string{}
+	for k := range muts {
+		names = append(names, k)
+	}
+	sort.Strings(names)
+	rng.Shuffle(len(names), func(i, j int) { names[i], names[j] = names[j], names[i] })
+	for _, k := range names[:min(len(names), 4)] {
+		r.opValidate(envRaw, muts[k], k)
+	}
+	// the same presentation inside an array envelope: mappings need path_nested
+	if rng.Intn(4) == 0 {
+		other := zMakeVP(rng.Intn(2) == 0, nil, true, rng.Intn(1000))
+		pos := rng.Intn(2)
+		vps := []string{vpText, other}
+		if pos == 1 {
+			vps = []string{other, vpText}
+		}
+		if rng.Intn(3) == 0 {
+			vps = []string{vpText}
+			pos = 0
+		}
+		arr := zEnvelopeText(vps, true)
+		nested := []zMapping{}
+		for _, m := range sub {
+			inner := m
+			f := "ldp_vp"
+			if rng.Intn(6) == 0 {
+				f = "jwt_vp"
+			}
+			nested = append(nested, zMapping{Id: m.Id, Fmt: f, Path: "$[" + strconv.Itoa(pos) + "]", Nested: &inner})
+		}
+		r.opValidate(arr, nested, "array-nested")
+		r.opValidate(arr, sub, "array-flat")
+	}
+}
+
+// arbitraryEnvelope: a presentation that was not produced by Build (credentials in any order, surplus credentials),
+// with a descriptor map taken from Match on some wallet or invented
+func (r *zRun) arbitraryEnvelope(rng *rand.Rand, n int) {
+	w := zGenWallet(rng, n)
+	creds := []vc.VerifiableCredential{}
+	for _, i := range w {
+		creds = append(creds, r.creds[i])
+	}
+	envRaw := zEnvelopeText([]string{zMakeVP(rng.Intn(2) == 0, creds, true, rng.Intn(1000))}, false)
+	sub := []zMapping{}
+	func() {
+		defer func() { recover() }()
+		_, maps, err := r.pd.Match(creds)
+		if err == nil {
+			for _, m := range maps {
+				sub = append(sub, zFromIDMO(m))
+			}
+			if len(sub) == 1 {
+				sub[0].Path = "$.verifiableCredential"
+			}
+		}
+	}()
+	if len(sub) == 0 || rng.Intn(3) == 0 {
+		sub = []zMapping{}
+		for _, d := range r.pd.InputDescriptors {
+			if len(creds) > 0 && rng.Intn(4) > 0 {
+				i := rng.Intn(len(creds))
+				p := "$.verifiableCredential[" + strconv.Itoa(i) + "]"
+				if len(creds) == 1 {
+					p = "$.verifiableCredential"
+				}
+				sub = append(sub, zMapping{Id: d.Id, Fmt: creds[i].Format(), Path: p})
+			}
+		}
+		r.opValidate(envRaw, sub, "arbitrary-invented")
+		return
+	}
+	r.opValidate(envRaw, sub, "arbitrary-matched")
 }
